@@ -234,7 +234,8 @@ class IEG:
         op = t["discr"].get("move") or t["discr"].get("copy")
         if op is None or "p" in op:
             return None
-        known = self._known(n.tag)
+        # knowledge at the end of the block: the scrutinee may have been moved into place by this block's own statements
+        known = self._var_updates(n)[0] if n.stmts else self._known(n.tag)
         src = None
         for st in n.stmts:
             if st["k"] == "assign" and "p" not in st["place"]:
@@ -369,7 +370,9 @@ class IEG:
                     elif name.startswith("<std::option::Option"):
                         v = {0: 1, 1: 0}.get(sh[0])
                     if v is not None:
-                        newv = (v, ())
+                        # Continue(payload) keeps what is known about the payload (e.g. a nested ControlFlow / enum)
+                        sub = [s_ for (i_, s_) in sh[1] if i_ == 0]
+                        newv = (v, ((0, sub[0]),)) if (v == 0 and sub) else (v, ())
             if newv is not None:
                 known[l] = newv
             else:
